@@ -1,0 +1,54 @@
+//! Verification hooks (only compiled with `--cfg stylua_verif`): a per-thread trace of what selected internal
+//! functions were given and what they returned, so that an external model can be replayed on the same calls.
+use full_moon::tokenizer::{Token, TokenType};
+use std::cell::RefCell;
+
+thread_local! {
+    static TRACE: RefCell<Option<Vec<String>>> = const { RefCell::new(None) };
+}
+
+/// Starts recording on this thread (and drops anything recorded before).
+pub fn start_trace() {
+    TRACE.with(|t| *t.borrow_mut() = Some(Vec::new()));
+}
+
+/// Stops recording and returns the records.
+pub fn take_trace() -> Vec<String> {
+    TRACE.with(|t| t.borrow_mut().take().unwrap_or_default())
+}
+
+pub fn record(site: &str, payload: String) {
+    TRACE.with(|t| {
+        if let Some(trace) = t.borrow_mut().as_mut() {
+            trace.push(format!("{site} {payload}"));
+        }
+    });
+}
+
+fn hex(s: &str) -> String {
+    let mut out = String::from("#");
+    for byte in s.bytes() {
+        out.push_str(&format!("{byte:02x}"));
+    }
+    out
+}
+
+/// One trivia token as `ws:<hex>`, `lc:<hex>`, `bc:<depth>:<hex>`, `sb:<hex>`, or `other`.
+pub fn describe_trivia(token: &Token) -> String {
+    match token.token_type() {
+        TokenType::Whitespace { characters } => format!("ws:{}", hex(characters)),
+        TokenType::SingleLineComment { comment } => format!("lc:{}", hex(comment)),
+        TokenType::MultiLineComment { blocks, comment } => format!("bc:{blocks}:{}", hex(comment)),
+        TokenType::Shebang { line } => format!("sb:{}", hex(line)),
+        _ => "other".to_string(),
+    }
+}
+
+pub fn describe_trivia_list<'a>(tokens: impl Iterator<Item = &'a Token>) -> String {
+    let items: Vec<String> = tokens.map(describe_trivia).collect();
+    if items.is_empty() {
+        "-".to_string()
+    } else {
+        items.join(",")
+    }
+}
